@@ -2,9 +2,20 @@
    status, streams and output modes form one contract).  [run] is the model of
    main.rs as it stands ([run_gen CODE_FLUSHES]); statements closed by [exact lemma],
    non-vacuity Examples, and [Print Assumptions]. *)
-From RJ Require Import Base.Outcome Model.Cli Proofs.Cli_proofs.
+From RJ Require Import Base.Outcome Model.Cli Proofs.Cli_proofs Gen.CliConsts.
 From Coq Require Import Permutation.
 Local Open Scope N_scope.
+
+(* T: the constants found in the current main.rs / cli.rs (exit status mapping, the checked
+   flush of stdout, the YAML stream literals, the virtual file names, the order in which the
+   variable arguments are processed, splitting at the first '=') are the ones the model uses *)
+Theorem C12_source_constants :
+  src_exit_generic = r_exit (fail_result []) /\ src_exit_usage = r_exit usage_result /\
+  src_flushes = CODE_FLUSHES /\
+  src_yaml_sep = s_dashes /\ src_yaml_item_end = [NL] /\ src_yaml_end = s_dots /\ src_yaml_end_nl = s_dots ++ [NL] /\
+  src_cmdline = s_cmdline /\ src_stdin = s_stdin /\ src_ext_prefix = lit_ext /\ src_tla_prefix = lit_tla /\
+  src_var_order = [0; 1; 2; 3; 4; 5; 6; 7] /\ src_split_first = true.
+Proof. repeat split; reflexivity. Qed.
 
 (* the exit status is 0, 1 or 2 — in particular no panic site of the glue is reachable *)
 Theorem C12_cli_exit_in_012 : forall c w,
@@ -187,6 +198,7 @@ Example C12_nonvacuous :
   bind_tla [([97], false); ([98], true)] [([98], ThStr [])] = Err CallParamNotBound.
 Proof. vm_compute. repeat split. Qed.
 
+Print Assumptions C12_source_constants.
 Print Assumptions C12_cli_exit_in_012.
 Print Assumptions C12_usage_is_2.
 Print Assumptions C12_stdout_only_on_success.
